@@ -57,8 +57,11 @@ def main():
             print(json.dumps(res)[:600], flush=True)
         finally:
             shutil.rmtree(scratch, ignore_errors=True)
+        old = json.load(open(out_path)) if os.path.exists(out_path) else []
+        merged = {os.path.basename(r["seed"].rstrip("/")): r for r in old}
+        merged.update({os.path.basename(r["seed"].rstrip("/")): r for r in results})
         with open(out_path, "w") as f:
-            json.dump(results, f, indent=1)
+            json.dump([merged[k] for k in sorted(merged)], f, indent=1)
     # restore Gen from /repo
     sh([os.path.join(VERIF, "check"), "C13", "--tier", "quick"], cwd=VERIF)
 
